@@ -11,6 +11,7 @@ from jaqalpaq.core.algorithm.expand_macros import MacroExpander, GateReplacer
 from jaqalpaq.error import JaqalError
 from contracts_subcircuits import wf_stmt
 from contracts_gates import plain_value, wf_param
+from contracts_registers import wf_reg, size_known, size_of
 
 
 @contract("core.algorithm.expand_macros:filter_float", props=["C04"])
@@ -147,6 +148,52 @@ class ReplQubitAssumed:
 
     def ensures(self, qubit, result):
         return isinstance(result, NamedQubit)
+
+    raises_only = ("JaqalError",)
+
+
+@spec
+def sub_reg(v, r):
+    """the register a reference is written on after substitution: the call's argument for a bound parameter"""
+    if type_is(r, Parameter) and has_key(v.arguments, r._name):
+        return dict_lookup(v.arguments, r._name)
+    return r
+
+
+@spec
+def sub_idx(v, i) -> int:
+    """the index after substitution: the call's argument for a bound parameter (an integral float denotes that integer)"""
+    if type_is(i, Parameter) and has_key(v.arguments, i._name):
+        return int(dict_lookup(v.arguments, i._name))
+    return i
+
+
+@contract("core.algorithm.expand_macros:GateReplacer.visit_NamedQubit", props=["C04", "C10"], primary=False)
+class ReplQubit:
+    """call-by-substitution for qubit references, verified on the domain 'the substituted register is a declared register
+    or alias and the substituted index is a number': r[j] in a macro body becomes <argument for r>[<argument for j>] - the
+    qubit with exactly that source register and that index -, an out-of-range index is refused with JaqalError and nothing
+    else escapes.  (Call sites use the weaker assumed contract above, whose domain also covers indices that stay symbolic.)"""
+
+    def requires(self, qubit):
+        return (wf_replacer(self) and type_is(qubit, NamedQubit)
+                and (type_is(qubit._alias_from, Register) or (type_is(qubit._alias_from, Parameter) and qubit._alias_from._kind == ParamType.NONE
+                                                              and is_str(qubit._alias_from._name) and has_key(self.arguments, qubit._alias_from._name)))
+                and type_is(sub_reg(self, qubit._alias_from), Register) and wf_reg(sub_reg(self, qubit._alias_from))
+                and (is_int(qubit._alias_index)
+                     or (type_is(qubit._alias_index, Parameter) and qubit._alias_index._kind == ParamType.NONE and is_str(qubit._alias_index._name)
+                         and has_key(self.arguments, qubit._alias_index._name)
+                         and (is_int(dict_lookup(self.arguments, qubit._alias_index._name))
+                              or (is_float(dict_lookup(self.arguments, qubit._alias_index._name))
+                                  and dict_lookup(self.arguments, qubit._alias_index._name) == int(dict_lookup(self.arguments, qubit._alias_index._name)))))))
+
+    def ensures(self, qubit, result):
+        return (type_is(result, NamedQubit) and same(result._alias_from, sub_reg(self, qubit._alias_from))
+                and is_int(result._alias_index) and result._alias_index == sub_idx(self, qubit._alias_index))
+
+    def raises_JaqalError(self, qubit):
+        return (size_known(sub_reg(self, qubit._alias_from))
+                and not (0 <= sub_idx(self, qubit._alias_index) and sub_idx(self, qubit._alias_index) < size_of(sub_reg(self, qubit._alias_from))))
 
     raises_only = ("JaqalError",)
 
